@@ -386,6 +386,16 @@ func registerStubs(m map[string]Intrinsic) {
 		st.store(p.sub(1), e.ConcStr(""))
 		return val(nil)
 	}
+	// (*url.URL).EscapedPath for URLs without a RawPath (what the harnesses build): the path escaped byte by byte
+	m["(*net/url.URL).EscapedPath"] = func(e *Exec, st *State, ci *CallInfo) Outcome {
+		p := ci.Args[0].(*Ptr)
+		raw, _ := st.load(p.sub(5)).(*Str)
+		if raw == nil || !raw.IsConc || raw.Conc != "" {
+			unsupportedf("URL.EscapedPath with a RawPath")
+		}
+		path := st.load(p.sub(4)).(*Str)
+		return val(e.escapePath(path))
+	}
 	m["bytes.NewReader"] = func(e *Exec, st *State, ci *CallInfo) Outcome {
 		return val(e.newModel(st, "bytes.Reader", map[string]Value{"data": ci.Args[0]}))
 	}
